@@ -211,4 +211,4 @@ def f_algebra_large(case):
 
 def st_algebra(be, whats, sizes=(12, 31, 32, 33, 63, 64, 65, 100)):
     return st.fixed_dictionaries({'be': st.just(be), 'N': st.sampled_from(list(sizes)), 'what': st.sampled_from(whats), 'seed': st.integers(0, 10 ** 6),
-                                  'ngates': st.sampled_from([0, 10, 100])})
+                                  'ngates': st.sampled_from([0, 10, 100, 1500, 4000])})       # sparse tables up to dense ones (thousands of H / S / CNOT)
